@@ -57,6 +57,7 @@ fn main() {
         Some("--c13-helper") => checks::c13::helper_main(),
         Some("--c01-binomial-helper") => checks::c01::binomial_helper_main(),
         Some("replay") => run_replay(&args[1]),
+        Some("--replay-inner") => run_replay_inner(&args[1]),
         Some(id) if args.len() >= 2 => supervise(id, &args[1]),
         _ => {
             eprintln!("usage: vcheck <Cxx> <quick|thorough> | vcheck replay <file>");
@@ -83,7 +84,36 @@ fn run_worker(id: &str, tier: &str) -> i32 {
     0
 }
 
+/// `vcheck replay <file>`: the replay itself runs in a child process, so that a history that kills the process
+/// running the subject (stack overflow, abort) still ends in a verdict: killed the same way twice = reproduced.
 fn run_replay(file: &str) -> i32 {
+    let exe = std::env::current_exe().expect("exe");
+    let once = || std::process::Command::new(&exe).arg("--replay-inner").arg(file).status();
+    let st = match once() {
+        Ok(s) => s,
+        Err(e) => {
+            eprintln!("cannot start the replay process: {e}");
+            return 2;
+        }
+    };
+    if let Some(c) = st.code() {
+        if c == 0 || c == 1 || c == 2 {
+            return c;
+        }
+    }
+    let st2 = once().ok();
+    let same = st2.map(|s| format!("{:?}", s) == format!("{:?}", st)).unwrap_or(false);
+    let id = std::fs::read_to_string(file).ok().and_then(|s| serde_json::from_str::<Value>(&s).ok()).and_then(|v| v["property"].as_str().map(|s| s.to_string())).unwrap_or_default();
+    if same && find(&id).map(|d| d.crash_is_violation).unwrap_or(false) {
+        println!("replayed twice in a child process, which was killed the same way both times: {:?}", st);
+        println!("VIOLATION property={id} replay={file}");
+        return 1;
+    }
+    eprintln!("replay process ended abnormally: {:?} (second run the same: {same})", st);
+    2
+}
+
+fn run_replay_inner(file: &str) -> i32 {
     let Ok(s) = std::fs::read_to_string(file) else {
         eprintln!("cannot read {file}");
         return 2;
